@@ -45,6 +45,7 @@ def make_mandatory(*names: str):
             hint = unoptional(field_parent_type(mcls, name))
             # update model and type hint (important for type analysis)
             mcls.__fields__[name].required = True
+            mcls.__fields__[name].allow_none = False  # (a passed None is no value)
             mcls.__annotations__[name] = hint
 
         return mcls
